@@ -97,6 +97,11 @@ class C16(Prop):
                 pool = outs + emits[:1]
                 if pool:
                     cfg["select"] = "**" if rng.random() < 0.2 else rng.sample(pool, rng.randint(1, min(3, len(pool))))
+                    if isinstance(cfg["select"], list):
+                        plain = [k for k, _ in c["values"] if k not in outs and k not in cfg["select"]]
+                        if rng.random() < 0.15 and plain:
+                            cfg["select"] = cfg["select"] + [rng.choice(plain)]      # a plain input is not selectable: must be rejected
+                        cfg["selectAsTuple"] = rng.random() < 0.5
                     ops["rtselect"] = 1
             cfg["onMissing"] = rng.choice(["ignore", "warn", "error"])
             cfg["errMode"] = rng.choice(["raise", "continue"])
